@@ -28,6 +28,9 @@ from tools.lib import core
 from tools.harness.codec import campaign, dsdlgen, model as modelmod, proto, valgen
 
 TIE = 'F-F16-TIE'
+# translators whose output is in the cone of Properties/C03.v: the option list of properties.yaml (classification of every language
+# option), nunavut.lang.c.is_zero_cost_primitive (which array path a C build takes), the macro structure of the codec templates
+GENERATORS = ['optguard', 'c01', 'codec_tpl']
 
 # deterministic types added to every generated namespace: the finding's witness and layouts the drills aim at
 OWN_FILES = {
@@ -59,8 +62,8 @@ def option_matrix(tier: str, rng) -> typing.List[typing.Tuple[str, dict]]:
     if tier == 'quick':
         return [('target_c', {'target_endianness': 'any'}),
                 ('target_c', {'target_endianness': 'little', 'enable_serialization_asserts': True}),
-                ('target_c', {'target_endianness': 'big'}),
-                ('target_cpp', {'target_endianness': 'any', 'std': 'c++14'}),
+                ('target_c', {'target_endianness': 'big', 'enable_override_variable_array_capacity': True}),
+                ('target_cpp', {'target_endianness': 'any', 'std': 'c++14', 'enable_override_variable_array_capacity': True}),
                 ('target_cpp', {'target_endianness': 'little', 'std': 'c++17', 'enable_serialization_asserts': True}),
                 ('target_cpp', {'target_endianness': 'big', 'std': 'c++20'}),
                 ('target_cpp', {'target_endianness': rng.choice(['any', 'little', 'big']), 'std': 'c++17-pmr',
@@ -75,6 +78,8 @@ def option_matrix(tier: str, rng) -> typing.List[typing.Tuple[str, dict]]:
             out.append(('target_cpp', {'target_endianness': ends[i % 3], 'enable_serialization_asserts': a, 'std': s}))
             i += 1
     out.append(('target_c', {'target_endianness': 'little', 'sanitize': True}))
+    out.append(('target_c', {'target_endianness': 'little', 'enable_override_variable_array_capacity': True, 'enable_serialization_asserts': True}))
+    out.append(('target_cpp', {'target_endianness': 'little', 'std': 'c++17', 'enable_override_variable_array_capacity': True}))
     out.append(('target_py', {}))
     return out
 
@@ -84,14 +89,13 @@ SIZES = {'quick': dict(n_types=26, per_type=40, n_values=10, rounds=1, obs_sampl
 
 
 def obs_keys(tgt: proto.Target) -> typing.List[str]:
-    """the ObsC03 (target, little, setzeros, asserts) instances that model this build; C++ zero runs are written by setZeros or
-    setUxx depending on the template site, so both renderings of the model must reproduce the build"""
+    """the ObsC03 instance (target, target_endianness, omit_float, asserts) that models this build"""
     a = '1' if tgt.options.get('enable_serialization_asserts') else '0'
-    if tgt.name == 'c':
-        return ['c %s 0 %s' % ('1' if tgt.options.get('target_endianness') == 'little' else '0', a)]
-    if tgt.name == 'cpp':
-        return ['cpp 0 0 ' + a, 'cpp 0 1 ' + a]
-    return ['py 0 0 0']
+    e = {'little': 'l', 'big': 'b'}.get(tgt.options.get('target_endianness', 'any'), 'a')
+    f = '1' if tgt.options.get('omit_float_serialization_support') else '0'
+    if tgt.name in ('c', 'cpp'):
+        return ['%s %s %s %s' % (tgt.name, e, f, a)]
+    return ['py a 0 0']
 
 
 def obs_request(key: str, c) -> str:
@@ -187,9 +191,13 @@ class Ctx:
         return self._mask[key]
 
 
-def agree_ser(ctx: Ctx, c, ra: str, rb: str) -> bool:
+def agree_ser(ctx: Ctx, c, ra: str, rb: str, strict: bool = False) -> bool:
+    """strict (both sides C / C++ code or their models, which are exact integer transcriptions): identical answers, error class
+    included; otherwise (a Python side): NaN float fields may hold any NaN of that width (NaNs travel through a Python double)"""
     if ra == rb:
         return True
+    if strict:
+        return False
     ka, aa = modelmod.parse_resp(ra)
     kb, ab = modelmod.parse_resp(rb)
     if ka == 'crash' or kb == 'crash':
@@ -203,9 +211,11 @@ def agree_ser(ctx: Ctx, c, ra: str, rb: str) -> bool:
     return nan_only_equal(aa[1], ab[1], ctx.mask(c))
 
 
-def agree_des(ctx: Ctx, tid: str, ra: str, rb: str) -> bool:
+def agree_des(ctx: Ctx, tid: str, ra: str, rb: str, strict: bool = False) -> bool:
     if ra == rb:
         return True
+    if strict:
+        return False
     ka, aa = modelmod.parse_resp(ra)
     kb, ab = modelmod.parse_resp(rb)
     if ka == 'crash' or kb == 'crash' or ka != kb:
@@ -320,6 +330,8 @@ def evaluate(ctx: Ctx, cases, stats: dict, flags: typing.Optional[set] = None) -
     ser_idx = [i for i, c in enumerate(cases) if c.op == 'ser']
     m_py = dict(zip(ser_idx, m.run(['p' + cases[i].req for i in ser_idx])))
     tie_free = dict(zip(ser_idx, [r == 'ok 1' for r in m.run([m.tok_req('tief', cases[i].tid, cases[i].value) for i in ser_idx])]))
+    des_idx = [i for i, c in enumerate(cases) if c.op == 'des']
+    nan_canonical = dict(zip(des_idx, [r != 'ok 0' for r in m.run(['nanc %s %s' % (cases[i].tid, cases[i].data.hex() or '-') for i in des_idx])]))
     for i, r in zip(ser_idx, m.run([m.tok_req('msk', cases[i].tid, cases[i].value) for i in ser_idx])):
         rr = r.split()
         ctx._mask.setdefault(cases[i].req, rr[1] if rr[:1] == ['ok'] and len(rr) > 1 else '')
@@ -339,6 +351,7 @@ def evaluate(ctx: Ctx, cases, stats: dict, flags: typing.Optional[set] = None) -
         return applicable(tg[lab], cases[i])
 
     # ---- pairwise
+    compared_types: set = set()
     for ai in range(len(labs)):
         for bi in range(ai + 1, len(labs)):
             la, lb = labs[ai], labs[bi]
@@ -349,16 +362,17 @@ def evaluate(ctx: Ctx, cases, stats: dict, flags: typing.Optional[set] = None) -
                 if not usable(la, i) or not usable(lb, i):
                     cnt['pairs_incomparable'] += 1
                     continue
+                compared_types.add(c.tid)
                 cnt['pair_comparisons'] += 1
                 if ra == rb:
                     continue
-                ok = agree_ser(ctx, c, ra, rb) if c.op == 'ser' else agree_des(ctx, c.tid, ra, rb)
+                ok = agree_ser(ctx, c, ra, rb, not mixed) if c.op == 'ser' else agree_des(ctx, c.tid, ra, rb, not mixed)
                 if ok:
                     cnt['equal_after_canonicalisation'] += 1
                     continue
                 if c.op == 'ser' and mixed and ctx.tie_active and not tie_free[i]:
                     rc, rp = (ra, rb) if family(ta) == 'cfam' else (rb, ra)
-                    if agree_ser(ctx, c, rc, m_c[i]) and agree_ser(ctx, c, rp, m_py[i]):
+                    if agree_ser(ctx, c, rc, m_c[i], True) and agree_ser(ctx, c, rp, m_py[i]):
                         cnt['tie_instances'] += 1
                         continue
                 fail('pair', (la, lb), a=la, b=lb, case=c, got_a=ra, got_b=rb, what='two generated codecs answer the same request differently')
@@ -376,16 +390,16 @@ def evaluate(ctx: Ctx, cases, stats: dict, flags: typing.Optional[set] = None) -
             cnt['model_comparisons'] += 1
             if c.op == 'ser':
                 exp = m_py[i] if t.name == 'py' else m_c[i]
-                ok = r == exp or agree_ser(ctx, c, r, exp)
+                ok = r == exp or agree_ser(ctx, c, r, exp, t.name != 'py')
                 if not ok and not tie_free[i]:
                     # a tie input: the DSDL specification admits either neighbour and C03 demands agreement BETWEEN the targets,
                     # which is what the pairwise comparison above enforces (a C-family/Python difference must match both rounding
                     # models exactly and needs the listed finding); against the model either rounding rule is accepted so that a
                     # repaired rounding rule on either side raises no alarm
-                    ok = agree_ser(ctx, c, r, m_c[i]) or agree_ser(ctx, c, r, m_py[i])
+                    ok = agree_ser(ctx, c, r, m_c[i], t.name != 'py') or agree_ser(ctx, c, r, m_py[i], t.name != 'py')
             else:
                 exp = m_c[i]
-                ok = r == exp or agree_des(ctx, c.tid, r, exp)
+                ok = r == exp or agree_des(ctx, c.tid, r, exp, t.name != 'py')
             if not ok:
                 fail('model', lab, a=lab, b='model', case=c, got_a=r, got_b=exp,
                      what='generated codec disagrees with its target observable (Spec/TargetsC03.v, extracted)')
@@ -406,12 +420,13 @@ def evaluate(ctx: Ctx, cases, stats: dict, flags: typing.Optional[set] = None) -
                         continue
                     exp = obs_out[k][i]
                     cnt['obs_model_comparisons'] = cnt.get('obs_model_comparisons', 0) + 1
+                    st = t.name != 'py'
                     if c.op == 'ser':
-                        ok = r == exp or agree_ser(ctx, c, r, exp)
+                        ok = r == exp or agree_ser(ctx, c, r, exp, st)
                         if not ok and not tie_free[i]:
-                            ok = agree_ser(ctx, c, r, m_c[i]) or agree_ser(ctx, c, r, m_py[i])
+                            ok = agree_ser(ctx, c, r, m_c[i], st) or agree_ser(ctx, c, r, m_py[i], st)
                     else:
-                        ok = r == exp or agree_des(ctx, c.tid, r, exp)
+                        ok = r == exp or agree_des(ctx, c.tid, r, exp, st)
                     if not ok:
                         fail('model', lab, a=lab, b='model', case=c, got_a=r, got_b=exp, step='ObsC03.obs_%s %s' % (c.op, k),
                              what='generated codec disagrees with the code-shaped observable (Codec/ObsC03.v over the shipped primitive '
@@ -459,7 +474,7 @@ def evaluate(ctx: Ctx, cases, stats: dict, flags: typing.Optional[set] = None) -
                          what='deserializer does not consume exactly what the serializer emitted')
                     continue
                 cnt['model_comparisons'] += 1
-                if not agree_des(ctx, c.tid, r2, md):
+                if not agree_des(ctx, c.tid, r2, md, t.name != 'py'):
                     fail('model', lab, a=lab, b='model', case=c, got_a=r2, got_b=md, step='des of own bytes ' + q,
                          what='generated deserializer disagrees with the specification on bytes its own serializer emitted')
                     continue
@@ -495,7 +510,8 @@ def evaluate(ctx: Ctx, cases, stats: dict, flags: typing.Optional[set] = None) -
                 cnt['chain_ser_des_ser'] += 1
                 r1 = out1[lab][i]
                 a, b = r1.split(), r3.split()
-                ok = r1 == r3 or (a[:2] == b[:2] and len(a) == 3 and len(b) == 3 and nan_only_equal(a[2], b[2], ctx.mask(c)))
+                ok = r1 == r3 or (tg[lab].name == 'py' and a[:2] == b[:2] and len(a) == 3 and len(b) == 3
+                                  and nan_only_equal(a[2], b[2], ctx.mask(c)))
                 if not ok:
                     fail('chain', lab, a=lab, b=lab, case=c, got_a=r1, got_b=r3, step='ser(des(ser v)) = ser v via ' + q,
                          what='re-serializing the deserialized value does not reproduce the bytes')
@@ -503,10 +519,36 @@ def evaluate(ctx: Ctx, cases, stats: dict, flags: typing.Optional[set] = None) -
                 cnt['chain_des_ser_des'] += 1
                 r1 = out1[lab][i]
                 a, b = r1.split(), r3.split()
-                ok = b[:1] == ['ok'] and modelmod._canon_tokens(db, c.tid, a[2:]) == modelmod._canon_tokens(db, c.tid, b[2:])
+                ok = b[:1] == ['ok'] and a[2:] == b[2:]
+                if not ok and b[:1] == ['ok'] and (tg[lab].name == 'py' or not nan_canonical.get(i, True)):
+                    # value-level identity is proved only up to float16 NaN canonicalisation (c03_des_ser_des_partial / _refuted)
+                    ok = modelmod._canon_tokens(db, c.tid, a[2:]) == modelmod._canon_tokens(db, c.tid, b[2:])
                 if not ok:
                     fail('chain', lab, a=lab, b=lab, case=c, got_a=r1, got_b=r3, step='des(ser(des bytes)) = des bytes via ' + o2[lab][i][:200],
                          what='decoding the re-encoded decoded value is not stable')
+    # audit2 C03 #5: the requests a runner could not hand to the generated code are counted and bounded per (target, type), and no
+    # type may drop out of the oracle-free comparison altogether
+    per_type_total: typing.Dict[str, int] = {}
+    for c in cases:
+        per_type_total[c.tid] = per_type_total.get(c.tid, 0) + 1
+    summ = stats.setdefault('incomparable_summary', {})
+    for lab in labs:
+        cntt: typing.Dict[str, int] = {}
+        for i, c in enumerate(cases):
+            if incomparable(out1[lab][i]):
+                cntt[c.tid] = cntt.get(c.tid, 0) + 1
+        if cntt:
+            worst = max(cntt, key=lambda t_: cntt[t_] / per_type_total[t_])
+            e = summ.setdefault(tg[lab].name, {'requests_not_comparable': 0, 'worst_type': '', 'worst_fraction': 0.0})
+            e['requests_not_comparable'] += sum(cntt.values())
+            fr = round(cntt[worst] / per_type_total[worst], 3)
+            if fr >= e['worst_fraction']:
+                e['worst_type'], e['worst_fraction'] = worst, fr
+    if len(labs) > 1 and len(cases) > 50:
+        never = sorted({c.tid for c in cases} - compared_types)
+        if never:
+            stats.setdefault('types_never_compared_pairwise', [])
+            stats['types_never_compared_pairwise'] = sorted(set(stats['types_never_compared_pairwise']) | set(never))
     return fails, cnt
 
 
@@ -669,7 +711,7 @@ def run_replay(chk: core.Check, path: str, exe: str) -> int:
         return campaign.run_replay(chk, 'des', path)       # histories are replayed by the shared engine
     if 'case' not in doc or 'files' not in doc or 'pair' not in doc:
         print('replay: no failing input recorded (%s)' % doc.get('what', 'broken obligation'))
-        res = core.coq_check(chk.prop, [])
+        res = core.coq_check(chk.prop, GENERATORS)
         print('proof obligations: %s %s' % ('ok' if res.ok else 'BROKEN', res.error_text[-500:]))
         if not res.ok:
             chk.violation({'broken': ['proof obligation'], 'coq_error': res.error_text[-2000:]}, found_input=False)
@@ -710,6 +752,85 @@ def run_replay(chk: core.Check, path: str, exe: str) -> int:
 
 
 # ------------------------------------------------------------------------------------------------
+# omit_float_serialization_support: exercised on a float-free namespace, and the model's build gate on a type with a float field
+# ------------------------------------------------------------------------------------------------
+
+FLOAT_FREE_OWN = {'nsa/c03/IntMix.1.0.dsdl': ('uint24 a\ntruncated uint12 b\nsaturated uint12 c\nbool g\nint24 i\ntruncated uint24[2] arr\n'
+                                               'saturated uint7 j\nvoid2\nuint16[<=3] w\nbool[5] bs\nint64 d\n@sealed\n')}
+
+
+def float_free_files(files: typing.Dict[str, str]) -> typing.Dict[str, str]:
+    keep = {k: v for k, v in files.items() if 'float' not in v}
+    changed = True
+    while changed:
+        changed = False
+        names = {k.split('/')[-1].split('.')[-4] if k.split('/')[-1][0].isdigit() else k.split('/')[-1].split('.')[0] for k in files if k not in keep}
+        for k, v in list(keep.items()):
+            if any(('.%s.' % nme) in v for nme in names):
+                del keep[k]
+                changed = True
+    return keep
+
+
+def omit_float_round(chk: core.Check, exe: str, stats: dict, total: dict, sizes: dict) -> typing.Optional[dict]:
+    """returns a violation report or None"""
+    info = stats.setdefault('omit_float', {})
+    work = core.scratch('c03omit-')
+    files = float_free_files(dict(campaign.load_corpus()['files']))
+    files.update(FLOAT_FREE_OWN)
+    prep = campaign.prepare(dsdlgen.single(files), work, exe)
+    matrix = [('target_c', {'target_endianness': 'any'}),
+              ('target_c', {'target_endianness': 'little', 'omit_float_serialization_support': True}),
+              ('target_cpp', {'target_endianness': 'any', 'std': 'c++17', 'omit_float_serialization_support': True,
+                              'enable_serialization_asserts': True})]
+    campaign.build_targets(prep, matrix, core.REPO, max_workers=3)
+    rep = None
+    try:
+        if prep.build_failures:
+            lab, logtxt = prep.build_failures[0]
+            return {'what': 'a float-free namespace does not build with omit_float_serialization_support (the model says it does: '
+                            'c03_float_free_types_always_build)', 'target': lab, 'log': logtxt, 'files': files}
+        ctx = Ctx(prep, False, 100000)
+        cases = make_cases(chk.rng, prep, dict(sizes, per_type=max(12, sizes['per_type'] // 3), n_values=6))
+        st = {'strata': {}, 'responses': {}}
+        fails, cnt = evaluate(ctx, cases, st)
+        for k, v in cnt.items():
+            total[k] = total.get(k, 0) + v
+        info.update({'types': len(prep.db.ids()), 'cases': len(cases), 'builds': [lab for lab, _ in prep.targets],
+                     'pair_comparisons': cnt['pair_comparisons'], 'obs_model_comparisons': cnt.get('obs_model_comparisons', 0)})
+        if fails:
+            f = fails[0]
+            rep = {'failure_kind': f['kind'], 'what': f['what'] + ' (omit_float_serialization_support round)', 'step': f.get('step', ''),
+                   'pair': [{'label': lab, 'module': (options_of(prep, lab) or (None, None))[0], 'options': (options_of(prep, lab) or (None, None))[1]}
+                            for lab in dict.fromkeys([f['a'], f['b']])],
+                   'case': f['case'].to_json(), 'original_got_a': f['got_a'], 'original_got_b': f['got_b'], 'files': files, 'tie_active': False}
+            return rep
+        # the gate: a type with a float field has NO compilable code under the option (model: obs_* = Err EShape)
+        work2 = core.scratch('c03gate-')
+        p2 = campaign.prepare(dsdlgen.single({'nsa/c03/Tie.1.0.dsdl': OWN_FILES['nsa/c03/Tie.1.0.dsdl']}), work2, exe)
+        campaign.build_targets(p2, [('target_c', {'omit_float_serialization_support': True})], core.REPO, max_workers=1)
+        gate_model = p2.model.run(['oser c a 1 0 %s' % p2.model.ser_req(TIE_TID, WITNESS_VALUE).split(' ', 1)[1]])[0]
+        info['gate'] = {'model': gate_model, 'c_build_with_float_type': 'fails' if p2.build_failures else 'succeeds'}
+        for _, t in p2.targets:
+            if hasattr(t, 'close'):
+                t.close()
+        shutil.rmtree(work2, ignore_errors=True)
+        if not p2.build_failures or gate_model != 'err invalid_arg':
+            return {'what': 'build gate of omit_float_serialization_support: the model says a type with float fields has no program '
+                            '(Err EShape), the real build %s, model answer %r' % (info['gate']['c_build_with_float_type'], gate_model),
+                    'files': {'nsa/c03/Tie.1.0.dsdl': OWN_FILES['nsa/c03/Tie.1.0.dsdl']}}
+        return None
+    finally:
+        for _, t in prep.targets:
+            if hasattr(t, 'close'):
+                try:
+                    t.close()
+                except Exception:  # noqa: BLE001
+                    pass
+        shutil.rmtree(work, ignore_errors=True)
+
+
+# ------------------------------------------------------------------------------------------------
 # the campaign
 # ------------------------------------------------------------------------------------------------
 
@@ -733,7 +854,7 @@ def run(chk: core.Check, trusted: typing.List[str], replay: typing.Optional[str]
             return chk.finish()
         return run_replay(chk, replay, exe)
 
-    res = core.coq_check('C03', ['c01', 'codec_tpl'])
+    res = core.coq_check('C03', GENERATORS)
     chk.proof_coverage(res, trusted)
     t_coq = round(time.time() - t_start, 1)
     broken: typing.List[str] = []
@@ -848,6 +969,17 @@ def run(chk: core.Check, trusted: typing.List[str], replay: typing.Optional[str]
         if reported:
             break
 
+    if ok_model and not reported:
+        t_o = time.time()
+        try:
+            rep = omit_float_round(chk, exe, stats, total, sizes)
+        except Exception as ex:  # noqa: BLE001
+            rep = {'what': 'omit_float round raised %r' % (ex,)}
+        stats['wall_omit_float_s'] = round(time.time() - t_o, 1)
+        if rep is not None:
+            rep['broken'] = broken
+            chk.violation(rep, found_input='case' in rep)
+            reported = True
     if tie_reproduced_any:
         chk.report_known(TIE, 'witness %s: C %s, Python %s' % (stats['tie_probe'].get('request', '')[:80], stats['tie_probe'].get('c'),
                                                                stats['tie_probe'].get('py')))
